@@ -422,6 +422,8 @@ class OEvaluator(Evaluator):
         raise Unsupported(f"free name {name}")
 
     def ev(self, e: ast.AST) -> Any:
+        if isinstance(e, _Lit):
+            return e.v
         self.oe.steps += 1
         if self.oe.steps > 2_000_000:
             raise Unsupported("too many interpretation steps")
@@ -632,6 +634,19 @@ class OEvaluator(Evaluator):
             if isinstance(t, ast.Name):
                 self.env[t.id] = self.ev(st.value)
                 return
+        if isinstance(st, ast.Assign) and len(st.targets) == 1 and isinstance(st.targets[0], (ast.Tuple, ast.List)) and not any(isinstance(t, ast.Starred) for t in st.targets[0].elts) and any(not isinstance(t, ast.Name) for t in st.targets[0].elts):
+            # unpacking into attributes / items:  self.a, self.b = seq
+            v = self.ev(st.value)
+            if isinstance(v, (str, bytes)):
+                v = list(v)
+            if not isinstance(v, (list, tuple)):
+                raise Unsupported("unpacking of a non-sequence")
+            elts = st.targets[0].elts
+            if len(v) != len(elts):
+                raise PyRaise("ValueError")
+            for t, x in zip(elts, v):
+                self._stmt(ast.Assign(targets=[t], value=_Lit(x), lineno=getattr(st, "lineno", 0)))
+            return
         if isinstance(st, ast.Assign) and len(st.targets) == 1 and isinstance(st.targets[0], (ast.Tuple, ast.List)) and any(isinstance(t, ast.Starred) for t in st.targets[0].elts):
             elts = st.targets[0].elts
             v = self.ev(st.value)
@@ -666,6 +681,15 @@ class OEvaluator(Evaluator):
         if isinstance(st, ast.Pass):
             return
         super()._block([st])
+
+
+class _Lit(ast.AST):
+    """An already-evaluated value placed where an expression is expected."""
+
+    _fields = ()
+
+    def __init__(self, v):
+        self.v = v
 
 
 class _InitSubSuper:
